@@ -18,10 +18,93 @@ EXTRA_CONFIGS = ["dhcp"]
 WRITE_KINDS = ("insert", "update", "delete", "drop", "alter", "create")
 
 
+def _r10_migrated_columns(ctx, M):
+    """a column added by a migration step (ALTER TABLE .. ADD COLUMN without NOT NULL/DEFAULT) is NULL in every row written before
+    the upgrade: whoever reads it reads an Option, otherwise the first legacy row makes the whole query fail after the upgrade"""
+    P = ctx.P
+    import re as _re
+    added = {}
+    for s in M.sites:
+        st = s.stmt
+        if st and st["kind"] == "alter" and st.get("action") == "add_column":
+            txt = st.get("text", "").upper()
+            if "NOT NULL" not in txt and "DEFAULT" not in txt:
+                added.setdefault(st["table"], set()).add(st["column"])
+    n = 0
+    for s in M.sites:
+        st = s.stmt
+        if not st or st["kind"] != "select":
+            continue
+        tables = set(_re.findall(r"\bFROM\s+(\w+)", st.get("text", ""), _re.I))
+        cols = set()
+        for t in tables:
+            cols |= added.get(t, set())
+        if not cols:
+            continue
+        items = st.get("items") or []
+        for b in P.family(s.body.id):
+            T = None
+            for bb, tm in b.calls():
+                nme = callee_name(tm) or ""
+                if not (nme.startswith("rusqlite::Row") and nme.endswith("::get")):
+                    continue
+                T = T or terms(P, b)
+                i = norm(T.call_args(bb)[1])
+                if i[0] != "const" or not isinstance(i[1], int) or i[1] >= len(items):
+                    continue
+                e = items[i[1]][0]
+                if e[0] == "col" and e[1] in cols:
+                    n += 1
+                    ctx.saw(b)
+                    ty = (tm["callee"].get("gargs") or ["?"])[-1]
+                    ctx.check(ty.startswith("std::option::Option<"), "R10", "migrated-column-read-as-optional:%s" % e[1], ctx.where(b, tm["sp"]),
+                              "column `%s` was added by a migration and is NULL in rows written before it; it is read as %s, so one legacy row "
+                              "fails the whole listing after an upgrade" % (e[1], ty))
+    ctx.floor("R10", "reads of columns added by a migration", n, 1)
+
+
+def _r11_commit_is_checked(ctx, M):
+    """a transaction around stored state is ended by an explicit commit() whose error reaches the caller: a commit that happens when
+    the transaction is dropped (DropBehavior::Commit) swallows its failure — the handler then acknowledges a lease that is not on disk"""
+    P = ctx.P
+    n = 0
+    for b in P.bodies.values():
+        if "dhcp::pool" not in b.id or "::test" in b.id:
+            continue
+        opens = [(bb, tm) for bb, tm in b.calls() if (callee_name(tm) or "").rsplit("::", 1)[-1] in ("transaction", "unchecked_transaction", "transaction_with_behavior", "savepoint")
+                 and "rusqlite" in (callee_name(tm) or "")]
+        drops = [(bb, tm) for bb, tm in b.calls() if (callee_name(tm) or "").endswith("::set_drop_behavior")]
+        for bb, tm in drops:
+            n += 1
+            ctx.bad("R11", "transaction-ends-by-drop:%s" % b.id.split("::")[-1], ctx.where(b, tm["sp"]),
+                    "set_drop_behavior makes the end of the transaction implicit; a failed COMMIT on drop is ignored")
+        if not opens:
+            continue
+        ctx.saw(b)
+        cfg = cfg_of(b)
+        commits = [bb for bb, tm in b.calls() if (callee_name(tm) or "").endswith("Transaction::<'_>::commit") or (callee_name(tm) or "").endswith("Transaction::commit")
+                   or ((callee_name(tm) or "").rsplit("::", 1)[-1] == "commit" and "rusqlite" in (callee_name(tm) or ""))]
+        oks = [bb for bb, idx, st in b.stmts() if st["p"] == (0,) and st.get("rv") and st["rv"]["k"] == "agg" and st["rv"].get("variant") == "Ok"]
+        # what was written under the transaction: write statements of this body and calls of store functions that write
+        writers = {s2.body.id for s2 in M.sites if s2.stmt and s2.stmt["kind"] in WRITE_KINDS}
+        wblocks = [s2.bb for s2 in M.sites if s2.body.id == b.id and s2.stmt and s2.stmt["kind"] in WRITE_KINDS]
+        wblocks += [bb2 for bb2, tm2 in b.calls() if callee_name(tm2) in writers]
+        for bb, tm in opens:
+            n += 1
+            after = [w for w in wblocks if cfg.dominates(bb, w)]
+            leak = [w for w in after if set(oks) & cfg.reachable_from(w, blocked=tuple(commits))]
+            ctx.check(not leak, "R11", "transaction-committed-before-success:%s" % b.id.split("::")[-1], ctx.where(b, tm["sp"]),
+                      "a successful return can be reached from a write made under this transaction without passing an explicit commit() "
+                      "(%d write(s) under it, %d commit(s))" % (len(after), len(commits)))
+    ctx.floor("R11", "transactions in the lease store", n, 1)
+
+
 def run(ctx):
     P = ctx.P
     cg = callgraph(P)
     M = PoolModel(P, cg)
+    _r10_migrated_columns(ctx, M)
+    _r11_commit_is_checked(ctx, M)
     inserts = [s for s in M.lease_sql() if s.stmt["kind"] == "insert"]
     ctx.floor("R1", "lease write", len(inserts), 1)
     if len(inserts) == 1:
